@@ -28,7 +28,6 @@ var hook struct {
 	mode  int
 	at    float64
 	calls int
-	sched bool // inside a vsched execution the answer is an explorer choice
 	pre   bool // schedule engine: deterministic "pass" while the prefix is loaded
 }
 
@@ -36,7 +35,7 @@ const passValue = 1 - 1.0/(1<<53)
 
 func installHook() {
 	vsched.FloatHook = func() (float64, bool) {
-		if hook.sched && vsched.Managed() {
+		if vsched.Managed() {
 			if hook.pre {
 				return passValue, true
 			}
